@@ -96,5 +96,5 @@ Proof. exact table_not_vacuous. Qed.
 Example replay_higher_exact_nonvacuous :
   map snd (predictions ex_rcfg rs0 ex_hist) = [PExact 1; PExact 1; PAnyAnswer; PExact 0; PExact 0]%N /\
   replay ex_rcfg rs0 ex_hist = [0; 0; 0; 0; 0]%N /\
-  replay ex_rcfg rs0 [RReq (mkReq 0 false 7 1 1); RWrite; RReq (mkReq 0 true 7 0 1)] = [0; 2]%N.
+  replay ex_rcfg rs0 [RReq (mkReq 0 false 7 1 1 []); RWrite; RReq (mkReq 0 true 7 0 1 [])] = [0; 2]%N.
 Proof. exact ex_replay. Qed.
